@@ -177,7 +177,7 @@ impl Driver {
             if let Some(ops) = crate::profiles::draw_forge(w, rng, mid, from, self.byz) {
                 let e = self.eid();
                 let by = if Some(from) == self.byz { self.byz } else { None };
-                w.apply(e, &Ev::Forge { src: mid, to, by, ops });
+                w.apply(e, &Ev::Forge { src: mid, to, by, ops, payload: None });
                 if w.msgs.contains_key(&(e, to as u32)) {
                     mid = (e, to as u32);
                 }
